@@ -400,6 +400,207 @@ def run_sync_case(case: dict) -> Outcome:
                 pass
         pipe.close()
 
+# ----------------------------------------------------------------------------------------------
+# layer "echo-backpressure": both directions active at once against a peer with *finite* buffers.  The peer is an
+# echo-style application: it reads a piece of the SUT's stream, writes the answer (k times the bytes it read), and does
+# not read again before that answer is fully written; its writes block when the SUT-bound pipe is full.  The SUT side
+# runs a writer task and a reader task concurrently.  Over a transparent full-duplex byte stream this always completes
+# (the reader keeps draining, so the peer's writes always finish, so it reads again, so the writer gets going again);
+# a TLS layer that makes the reader wait for the writer turns exactly this into a deadlock.
+
+
+class _BackpressureWire:
+    def __init__(self, mem: Any, peer: tlspeer.TLSPeer, case: dict) -> None:
+        self.mem = mem
+        self.peer = peer
+        self.cap_up = case["cap_up"]
+        self.cap_down = case["cap_down"]
+        self.echo_factor = case["echo_factor"]
+        self.frag = case["frag"]
+        self.to_peer = bytearray()
+        self.resp_queue = bytearray()  # plaintext the peer application still has to write (it is "blocked in write")
+        self.limited = False
+        self.activity = asyncio.Event()
+        self.stop = False
+        self.echoed = 0
+        self.peer_blocked_writes = 0
+        self.sut_blocked_writes = 0
+        mem.on_send = self._on_sut_send
+
+    def _on_sut_send(self, data: bytes) -> None:
+        self.to_peer += data
+        self._update_writable()
+        self.activity.set()
+
+    def _update_writable(self) -> None:
+        ok = (not self.limited) or len(self.to_peer) < self.cap_up
+        if not ok and self.mem.writable:
+            self.sut_blocked_writes += 1
+        self.mem.set_writable(ok)
+
+    def kick(self) -> None:
+        self.activity.set()
+
+    async def conductor(self) -> None:
+        zero_run = 0
+        seen = 0
+        while not self.stop:
+            moved = False
+            peer, mem = self.peer, self.mem
+            # the peer application reads only when it is not in the middle of writing an answer
+            if self.to_peer and not self.resp_queue and not mem.closed:
+                n = len(self.to_peer) if not self.limited else min(len(self.to_peer), self.frag)
+                peer.feed(bytes(self.to_peer[:n]))
+                del self.to_peer[:n]
+                self._update_writable()
+                moved = True
+            out = peer.pump()
+            if len(peer.plain_in) > seen:
+                new = bytes(peer.plain_in[seen:])
+                seen = len(peer.plain_in)
+                self.resp_queue += new * self.echo_factor
+                moved = True
+            # the peer's write proceeds as far as the SUT-bound pipe has room (the pipe = bytes the SUT has not consumed yet)
+            if self.resp_queue and not mem.closed:
+                room = (1 << 30) if not self.limited else self.cap_down - len(mem.inbox)
+                if room > 0:
+                    piece = bytes(self.resp_queue[: min(room, self.frag)])
+                    del self.resp_queue[: len(piece)]
+                    peer.write(piece)
+                    self.echoed += len(piece)
+                    out += peer.pump()
+                    moved = True
+                else:
+                    self.peer_blocked_writes += 1
+            if out and not mem.closed:
+                mem.feed(out)
+                moved = True
+            if moved:
+                zero_run += 1
+                if zero_run >= 40:
+                    zero_run = 0
+                    await asyncio.sleep(1e-9)
+                else:
+                    await asyncio.sleep(0)
+                continue
+            self.activity.clear()
+            await self.activity.wait()
+
+
+class _DrainAwareMem(tlsharness.MemStreamTransport):
+    """tells the wire when the SUT consumed bytes (room for the peer's blocked write)"""
+
+    wire: Any = None
+
+    async def recv_into(self, buffer: Any) -> int:
+        n = await super().recv_into(buffer)
+        if self.wire is not None:
+            self.wire.kick()
+        return n
+
+
+async def _echo_session(case: dict) -> dict:
+    from easynetwork.lowlevel.api_async.backend._asyncio.backend import AsyncIOBackend
+
+    backend = AsyncIOBackend()
+    mem = _DrainAwareMem(backend, script={"send_split": [case["send_split"]]} if case["send_split"] else None)
+    peer = tlspeer.TLSPeer("server" if case["sut_role"] == "client" else "client", case["version"])
+    wire = _BackpressureWire(mem, peer, case)
+    mem.wire = wire
+    conductor = asyncio.create_task(wire.conductor())
+    requests = [tlspeer.payload("sut", i, n) for i, n in enumerate(case["requests"])]
+    sent_all = b"".join(requests)
+    res: dict[str, Any] = {}
+    try:
+        tls = await tlsharness.wrap_sut(case, mem)
+        wire.limited = True
+        wire._update_writable()
+        want = len(sent_all) * case["echo_factor"]
+        received = bytearray()
+
+        async def writer() -> None:
+            for req in requests:
+                await tls.send_all(req)
+
+        async def reader() -> None:
+            sizes = case["recv_sizes"]
+            i = 0
+            gaps = case.get("reader_gaps") or [0]
+            while len(received) < want:
+                data = await tls.recv(sizes[i % len(sizes)])
+                if not data:
+                    break
+                received.extend(data)
+                g = gaps[i % len(gaps)]
+                i += 1
+                if g:
+                    await asyncio.sleep(g)  # a consumer that is sometimes slower than the network
+
+        await asyncio.gather(writer(), reader())
+        res["received"] = bytes(received)
+        res["peer_plain"] = bytes(peer.plain_in)
+        wire.limited = False
+        wire._update_writable()
+        await tls.aclose()
+    finally:
+        wire.stop = True
+        wire.kick()
+        conductor.cancel()
+        await asyncio.gather(conductor, return_exceptions=True)
+    res["sent_all"] = sent_all
+    res["peer_blocked_writes"] = wire.peer_blocked_writes
+    res["sut_blocked_writes"] = wire.sut_blocked_writes
+    res["peer_error"] = repr(peer.error) if peer.error else None
+    return res
+
+
+def run_echo_case(case: dict) -> Outcome:
+    try:
+        r = run_virtual(_echo_session, case)
+    except Deadlock as exc:
+        raise Violation(
+            "deadlock",
+            "full-duplex session against an echo-style peer with finite buffers never completes (over a transparent byte "
+            f"stream it always does): {str(exc)[:1500]}",
+            cap_up=case["cap_up"],
+            cap_down=case["cap_down"],
+        ) from exc
+    if r["peer_error"]:
+        raise Violation("peer-tls-error", f"the peer's TLS engine failed: {r['peer_error']}")
+    if r["peer_plain"] != r["sent_all"]:
+        raise Violation("data-mismatch", f"peer read {len(r['peer_plain'])} bytes, SUT wrote {len(r['sent_all'])}")
+    # the echo stream is the concatenation of (chunk * k) for the chunks the peer happened to read: compare as multiset per
+    # position is not possible, but with k == 1 it is the stream itself, and its length is exact for every k
+    if len(r["received"]) != len(r["sent_all"]) * case["echo_factor"]:
+        raise Violation("data-lost", f"SUT received {len(r['received'])} of {len(r['sent_all']) * case['echo_factor']} echoed bytes")
+    if case["echo_factor"] == 1 and r["received"] != r["sent_all"]:
+        raise Violation("data-mismatch", "echoed stream differs from what was sent")
+    both = r["peer_blocked_writes"] > 0 and r["sut_blocked_writes"] > 0
+    classes = [f"role-{case['sut_role']}", f"tls-{case['version']}", f"echo-x{case['echo_factor']}"]
+    if r["peer_blocked_writes"]:
+        classes.append("peer-write-blocked")
+    if r["sut_blocked_writes"]:
+        classes.append("sut-write-blocked")
+    return Outcome(nontrivial=both, classes=tuple(classes), note=f"peer blocked {r['peer_blocked_writes']}x, SUT blocked {r['sut_blocked_writes']}x")
+
+
+@st.composite
+def st_echo_case(draw: st.DrawFn, tier: str) -> dict:
+    return {
+        "sut_role": draw(st.sampled_from(["client", "server"])),
+        "version": draw(st.sampled_from(["1.2", "1.3"])),
+        "requests": draw(st.lists(st.sampled_from([100, 3000, 20000, 70000]), min_size=1, max_size=5)),
+        "echo_factor": draw(st.sampled_from([1, 1, 2])),
+        "cap_up": draw(st.sampled_from([512, 4096, 16384, 65536])),
+        "cap_down": draw(st.sampled_from([512, 4096, 16384, 65536])),
+        "frag": draw(st.sampled_from([256, 1500, 8192])),
+        "send_split": draw(st.sampled_from([0, 1024, 8192])),
+        "recv_sizes": draw(st.lists(st.sampled_from([64, 1024, 16384, 65536]), min_size=1, max_size=3)),
+        "reader_gaps": draw(st.lists(st.sampled_from([0, 0, 0.001, 0.01]), min_size=1, max_size=4)),
+        "standard_compatible": True,
+    }
+
+
 
 CHECK = Check(
     id="C08",
@@ -408,11 +609,15 @@ CHECK = Check(
         "case = SUT role (client/server) x TLS 1.2/1.3 x write sizes per direction (1..50000, several records) x "
         "ciphertext fragment sizes per direction (down to 1 byte) x virtual delivery delays x writer/reader/peer-writer "
         "interleaving x send_all vs send_all_from_iterable x recv vs recv_into sizes; non-trivial = both directions carry "
-        "data and ciphertext to the SUT is fragmented below record size over >= 2 deliveries; distinct = sha1(case)"
+        "data and ciphertext to the SUT is fragmented below record size over >= 2 deliveries; layer echo-backpressure: 1-5 requests of "
+        "100..70000 bytes x pipe capacities 512..65536 each way x echo factor 1-2 x consumer pauses against an echo-style peer that "
+        "does not read while its answer is unwritten, non-trivial = the peer's and the SUT's writes were both blocked at least once; "
+        "distinct = sha1(case)"
     ),
     layers=[
         Layer("async", st_async_case, run_async_case, {"quick": 350, "thorough": 2000}),
         Layer("sync", st_sync_case, run_sync_case, {"quick": 150, "thorough": 1000}),
+        Layer("echo-backpressure", st_echo_case, run_echo_case, {"quick": 150, "thorough": 1000}),
     ],
     assumptions=[
         "peer is the stdlib ssl.SSLObject (OpenSSL) driven over MemoryBIO by the harness; the wrapped transport is the in-memory MemStreamTransport on the real asyncio backend with a virtual clock",
